@@ -4,6 +4,7 @@ import Cuke.Model.SchedMon
 import Cuke.Lemmas.Brackets
 import Cuke.Lemmas.SchedBrackets
 import Cuke.Lemmas.SchedOrder
+import Cuke.Lemmas.SchedExit
 /-!
 # C03 — Event stream framing: run/feature/rule brackets are exact and properly nested
 Model: `Cuke.startScenarios`, `Cuke.scenarioFinished`, `Cuke.finishAll`, the run-level labels of the
@@ -249,6 +250,32 @@ theorem lts_started_before_scenario_events (c : SCfg) (ls : List Label) (k : Sce
 /-- non-vacuity: the complete example run is replayed without any disagreement, and it sends scenario events -/
 example : Cuke.SchedOrd.Clean0 (accept exCfg (exLog.take 12)) = true ∧
     exLog[11]? = some (.tx (.scen k2 none .started)) := by decide +kernel
+
+
+/-! ## Nothing of a scenario after the exit decision -/
+
+open Cuke.SchedOrd Cuke.SchedExit in
+/-- **After `execute` has taken its exit, no scenario event is sent.** In every run replayed without disagreement:
+    once `is_finished` was true (label `idle true _`) nothing is in flight, nothing is dispatched any more, and no event
+    of any scenario follows — so the Finished brackets that `finish_all_rules_and_features` emits at that point, and
+    run-Finished, come after every scenario event of the run. -/
+theorem lts_no_scenario_event_after_exit (c : SCfg) (pre post : List Label) (sl : Bool)
+    (hc : Clean0 (accept c (pre ++ [.idle true sl] ++ post)) = true) :
+    ∀ k ret se, Label.tx (.scen k ret se) ∉ post := by
+  have hacc : accept c (pre ++ [.idle true sl] ++ post) = post.foldl (stepL c) (stepL c (accept c pre) (.idle true sl)) := by
+    simp [accept, List.foldl_append]
+  rw [hacc] at hc
+  have hmono : ∀ (ls : List Label) (s : SState), Clean0 (ls.foldl (stepL c) s) = true → Clean0 s = true := by
+    intro ls
+    induction ls with
+    | nil => intro s h; exact h
+    | cons l rest ih2 => intro s h; exact clean0_step_mono c s l (ih2 _ h)
+  have h1 := hmono post _ hc
+  exact exiting_run c post _ (idle_true_exiting c (accept c pre) sl (clean0_all _ h1).1) hc
+
+/-- non-vacuity: the complete example run takes its exit at label 19 and is clean to its end -/
+example : exLog[19]? = some (.idle true false) ∧ Cuke.SchedOrd.Clean0 (accept exCfg (exLog.take 23)) = true := by
+  decide +kernel
 
 end Cuke.C03
 
